@@ -1,6 +1,7 @@
 # SPDX-License-Identifier: AGPL-3.0
 
 import argparse
+import json
 import os
 import re
 import shlex
@@ -975,7 +976,9 @@ def main():
     def _to_toml_str(value: Any, type) -> str:
         assert value is not None
         if type is str:
-            return f'"{value}"'
+            # a TOML basic string: quotes, backslashes and control characters must be escaped
+            # (the JSON string syntax is a subset of it)
+            return json.dumps(value, ensure_ascii=False)
         if type is bool:
             return str(value).lower()
         return str(value)
